@@ -156,7 +156,9 @@ func (c *copier) prepareTargetDir(srcFollowed, src, destPath string, copyDirCont
 	}
 
 	if (!copyDirContents && fiSrc.IsDir() && fiDest != nil) || (!fiSrc.IsDir() && fiDest != nil && fiDest.IsDir()) {
-		destPath = filepath.Join(destPath, filepath.Base(src))
+		// the name of the source as seen from inside its root: "..", "a/.." and the like stay at the
+		// root and must not become a ".." component of the destination path
+		destPath = filepath.Join(destPath, filepath.Base(filepath.Join(string(filepath.Separator), src)))
 	}
 
 	target := filepath.Dir(destPath)
